@@ -203,6 +203,15 @@ Theorem C06_deadline_law : forall t0 evs d n,
 Proof. exact rt_deadline_law. Qed.
 Print Assumptions C06_deadline_law.
 
+(* ... giving up is never early either: a NACK TOO_MANY_RETRIES comes no sooner than T * 2^cnt
+   after the last transmission (cnt = MAX_RETRANSMIT by C06_one_outcome) ... *)
+Theorem C06_giveup_not_early : forall t0 evs tr1 t u s m c mx tr2,
+  Forall rt_ev_ok evs ->
+  snd (rt_run (rt_init t0) evs) = tr1 ++ RoNack t u s rt_NACK_TOO_MANY_RETRIES m c mx :: tr2 ->
+  exists l tl T, rt_tproj u tr1 = l ++ [(tl, c, T)] /\ tl + T * 2 ^ c <= t.
+Proof. exact rt_giveup_not_early. Qed.
+Print Assumptions C06_giveup_not_early.
+
 (* ... and T is computed once, from the session's settings and one random byte, when the
    message is accepted *)
 Theorem C06_T_drawn_once : forall st s m b cfg r,
